@@ -4,6 +4,7 @@ CONSTANTS
   Beams <- MC_Beams
   Dets <- MC_Dets
   Qs <- MC_Qs_quick
+  Rots <- MC_Gens
   Bug = "none"
 INVARIANT TypeOK
 INVARIANT Basis
